@@ -1,6 +1,6 @@
 (* Properties/C13.v — Torrent files: total parsing, consistent geometry, identity preserved. *)
 From Coq Require Import String.
-From Storrent Require Import Base.Bytes Base.Bencode Model.Wire Model.Torfile Proof.Torfile Proof.TorSlice.
+From Storrent Require Import Base.Bytes Base.Bencode Model.Wire Model.Torfile Proof.Torfile Proof.TorSlice Model.TorWrite Proof.TorWriteRT.
 Open Scope N_scope.
 
 (* reading any byte string as a .torrent never crashes: no division by zero, no
@@ -43,3 +43,23 @@ Theorem c13_info_is_slice : forall bs raw g cd tr ul hs,
     bparse (S (length (raw ++ post))) (raw ++ post) = BOk v post k2.
 Proof. exact info_is_slice. Qed.
 Print Assumptions c13_info_is_slice.
+
+(* The .torrent file storrent serves back (tor.WriteTorrent, Model/TorWrite.v — its bytes are compared
+   with the implementation's on every accepted case of every run) reads back as the same torrent:
+   the info dictionary byte for byte, hence the same info-hash, the same creation date, tracker
+   tiers (a single tracker is written as "announce" only, anything else as "announce-list") and
+   web seeds.  For every info dictionary that is one bencoded value accepted by MetadataComplete,
+   every creation date, and all trackers and web seeds with URLs the reader accepts. *)
+Theorem c13_write_read : forall raw v k g cd tr ul hs,
+  bdecode raw = BOk v [] k -> metadata_complete raw = MOk g ->
+  (- 2 ^ 63 <= cd < 2 ^ 63)%Z -> tiers_ok tr -> urls_ok ul -> urls_ok hs ->
+  read_torrent (write_torrent raw cd tr ul hs) = ROk raw g cd tr ul hs.
+Proof. exact write_read. Qed.
+Print Assumptions c13_write_read.
+
+(* parsing depends only on the bytes it consumes (used above: the info dictionary reads the same
+   inside the written file as it did inside the original one) *)
+Theorem c13_parse_is_local : forall f u r v k,
+  bparse f (u ++ r) = BOk v r k -> forall r', bparse f (u ++ r') = BOk v r' k.
+Proof. exact Proof.BencodeLocal.bparse_local. Qed.
+Print Assumptions c13_parse_is_local.
